@@ -28,6 +28,7 @@ def run(s):
     tmp = tempfile.mkdtemp(prefix="c17_")
     try:
         deductive(s, qi, ed, tmp)
+        table_structure(s, ed)
         phonon_round_trip(s, qi, rnd, tmp)
         static_tables(s, ed, rnd, tmp)
         fill_command(s, ed, rnd, tmp)
@@ -426,19 +427,223 @@ def render_table(rnd, nv, cols, with_lattice, prefix):
     lines.append("V " + " ".join(spell))
     vols, rows = [], []
     for i in range(nv):
-        v = round(rnd.uniform(100, 2000), 8)
-        vals = [round(rnd.uniform(-50, 600), rnd.choice([0, 2, 5])) for _ in cols]
+        # every third row carries FULL double precision (17 significant digits, as a table dumped with repr() does): "exactly the tabulated" value is float(token)
+        full = (i % 3 == 1)
+        v = rnd.uniform(100, 2000) if full else round(rnd.uniform(100, 2000), 8)
+        vals = [rnd.uniform(-50, 600) if (full or rnd.random() < 0.2) else round(rnd.uniform(-50, 600), rnd.choice([0, 2, 5])) for _ in cols]
         vols.append(v)
         rows.append(vals)
-        lines.append("%.8f " % v + " ".join(repr(float(x)) for x in vals))
+        lines.append((repr(v) if full else "%.8f" % v) + " " + " ".join(repr(float(x)) for x in vals))
     lat = []
     if with_lattice:
         lines.append("lattice_a lattice_b lattice_c")
         for i in range(nv):
-            l = tuple(round(rnd.uniform(1, 30), 6) for _ in range(3))
+            l = tuple((rnd.uniform(1, 30) if i % 3 == 1 else round(rnd.uniform(1, 30), 6)) for _ in range(3))
             lat.append(l)
             lines.append(" ".join(repr(x) for x in l))
     return "\n".join(lines) + "\n", vref, mass, vols, rows, lat
+
+
+# ----------------------------------------------------------------------------------------------------------------------
+# read_elast_data: line and field STRUCTURE on abstract tables (every layout up to 12 rows x 21 columns, with / without lattice block, three ways the file can end)
+class _Field:
+    """an abstract printed number of the table: ('vref',) | ('mass',) | ('row', i, j) | ('lat', i, j)"""
+
+    def __init__(self, what):
+        self.what = what
+
+
+class _Value:
+    """float() of a field"""
+
+    def __init__(self, what):
+        self.what = what
+
+    def _value_dependent(self, *a):
+        raise core.OutsideSubset("the reader branches on / computes with the VALUE of a tabulated number: the structure contract keeps contents abstract")
+    __bool__ = __eq__ = __ne__ = __lt__ = __le__ = __gt__ = __ge__ = __add__ = __radd__ = __mul__ = __rmul__ = __neg__ = __abs__ = _value_dependent
+    __hash__ = object.__hash__
+
+
+class _Count(int):
+    """the row count printed in the header: a concrete natural number (the loop bounds depend on it)"""
+
+
+class _TLine:
+    def __init__(self, kind, fields, stripped=False):
+        self.kind, self.fields, self.stripped = kind, fields, stripped
+
+    def strip(self, *a):
+        if a and a[0] is not None:
+            raise core.OutsideSubset("strip(%r)" % (a,))
+        return _TLine(self.kind, self.fields, True)
+    rstrip = lstrip = strip
+
+    def split(self, *a, **k):
+        if a or k:
+            raise core.OutsideSubset("split with arguments")
+        return list(self.fields)          # A-SPLIT: the printed fields are the maximal runs of non-blank characters
+
+    def __eq__(self, o):
+        if isinstance(o, str) and o == "":
+            if not self.stripped:
+                return False if self.kind != "eof" else True          # a raw blank line is "\n", only end of file is ""
+            return self.kind in ("blank", "eof")
+        if isinstance(o, str) and o.strip() == "" and not self.stripped:
+            return self.kind == "blank" and o == "\n"
+        raise core.OutsideSubset("a table line is compared with %r" % (o,))
+
+    def __ne__(self, o):
+        return not self.__eq__(o)
+    __hash__ = object.__hash__
+
+    def __bool__(self):
+        return self.kind != "eof" and not (self.stripped and self.kind == "blank")
+
+    def __len__(self):
+        if self.kind == "eof" or (self.stripped and self.kind == "blank"):
+            return 0
+        raise core.OutsideSubset("len() of a table line")
+
+
+class _TFile:
+    def __init__(self, lines):
+        self.lines, self.i = lines, 0
+
+    def __enter__(self):
+        return self
+
+    def __exit__(self, *a):
+        return False
+
+    def __iter__(self):
+        return self
+
+    def __next__(self):
+        if self.i >= len(self.lines):
+            raise StopIteration
+        self.i += 1
+        return self.lines[self.i - 1]
+
+    def readline(self):
+        if self.i >= len(self.lines):
+            return _TLine("eof", [], False)
+        return next(self)
+
+    def readlines(self):
+        out, self.i = self.lines[self.i:], len(self.lines)
+        return out
+
+    def read(self, *a):
+        raise core.OutsideSubset("the reader takes the file as one string")
+
+
+def _tfloat(x, *a):
+    if isinstance(x, _Field):
+        return _Value(x.what)
+    if isinstance(x, _Count):
+        return float(int(x))
+    if isinstance(x, _TLine):
+        raise core.OutsideSubset("a whole line is converted to a number")
+    return float(x, *a)
+
+
+def _tint(x, *a):
+    if isinstance(x, _Count):
+        return int.__int__(x)
+    if isinstance(x, _Field):
+        raise core.OutsideSubset("int() of a field other than the row count")
+    return int(x, *a)
+
+
+def abstract_table(nv, labels, ending):
+    lines = [_TLine("title", ["a", "title"]), _TLine("header", [_Field(("vref",)), _Count(nv), _Field(("mass",))]), _TLine("keys", ["V"] + list(labels))]
+    for i in range(nv):
+        lines.append(_TLine("row", [_Field(("row", i, j)) for j in range(len(labels) + 1)]))
+    if ending == "lattice":
+        lines.append(_TLine("latticehead", ["lattice_a", "lattice_b", "lattice_c"]))
+        for i in range(nv):
+            lines.append(_TLine("lat", [_Field(("lat", i, j)) for j in range(3)]))
+    elif ending == "blank":
+        lines.append(_TLine("blank", []))
+    return lines
+
+
+def table_structure(s, ed):
+    """[F x abstract contents] read_elast_data on abstract tables: every number of rows 1-12, every number of component columns 1-21 (labels drawn from all prefixes and index
+    spellings), and the three endings (lattice block / end of file / a trailing blank line): the reference volume, the cell mass, every row's volume, every component keyed by
+    the canonical key of ITS column, and every lattice row are the fields of their own lines, in order"""
+    from cij.util import c_
+    from contracts.nonshear_env import patched
+    rnd = random.Random(17)
+    allpairs = [(i, j) for i in range(1, 7) for j in range(i, 7)]
+
+    def ob():
+        n = 0
+        for nv in range(1, 13):
+            for ncol in range(1, 22):
+                cols = rnd.sample(allpairs, ncol)
+                prefix = PREFIXES[(nv + ncol) % len(PREFIXES)]
+                labels = []
+                for (I, J) in cols:
+                    labels.append(("%s%d%d" % (prefix, I, J)) if (I + J + nv) % 3 else ("%s%d%d" % (prefix, J, I)))
+                for ending in ("lattice", "eof", "blank"):
+                    lines = abstract_table(nv, labels, ending)
+                    msg = None
+                    try:
+                        with patched(ed, open=lambda *a, **k: _TFile(lines), float=_tfloat, int=_tint):
+                            d = ed.read_elast_data("abstract.dat")
+                        what = lambda x: getattr(x, "what", None)
+                        if what(d.vref) != ("vref",) or d.nv != nv or what(d.cellmass) != ("mass",):
+                            msg = "header fields are not (reference volume, row count, cell mass) of the second line"
+                        elif len(d.volumes) != nv:
+                            msg = "%d rows read" % len(d.volumes)
+                        else:
+                            for i in range(nv):
+                                want = {c_(I, J): ("row", i, k + 1) for k, (I, J) in enumerate(cols)}
+                                got = {k: what(v) for k, v in dict(d.volumes[i].static_elastic_modulus).items()}
+                                if what(d.volumes[i].volume) != ("row", i, 0) or got != want:
+                                    msg = "row %d: the volume / components are not the fields of its own line keyed by the canonical key of their own column" % i
+                                    break
+                        lat = [tuple(what(x) for x in row) for row in d.lattice_parmeters]
+                        if not msg and lat != ([tuple(("lat", i, j) for j in range(3)) for i in range(nv)] if ending == "lattice" else []):
+                            msg = "lattice block (%s): read %r" % (ending, lat[:2])
+                    except StopIteration:
+                        msg = "the reader runs past the end of the file (%s)" % ending
+                    except (IndexError, KeyError) as e:
+                        msg = "%s: %s" % (type(e).__name__, e)
+                    except (AttributeError, TypeError, ValueError) as e:
+                        raise core.OutsideSubset("the code used an abstract line / field in a way the structure contract does not model (%s: %s)" % (type(e).__name__, e))
+                    n += 1
+                    if msg:
+                        r = core.refuted("finite", "table of %d row(s) x %d component column(s), ending %s: %s" % (nv, ncol, ending, msg), witness_id="table-structure:%d:%d:%s" % (nv, ncol, ending))
+                        r.replay = native_table(ed, nv, cols, ending)
+                        return r
+        return core.proved("finite", "%d abstract tables (1-12 rows x 1-21 component columns x 3 endings), contents abstract: every parsed number is the field of its own line and column" % n)
+    s.oblige("C17.read_elast_data.structure(1-12 rows x 1-21 columns x 3 endings, abstract contents)", ob, ["elast_dat.read_elast_data", "elast_dat._find_modulus_key"], kind="finite",
+             fallback=lambda: {"reproduced": False, "note": "bounded run C17.static_table_parse decides"})
+
+
+def native_table(ed, nv, cols, ending):
+    from cij.util import c_
+    rnd = random.Random(nv * 100 + len(cols))
+    text, vref, mass, vols, rows, lat = render_table(rnd, nv, cols, ending == "lattice", "c")
+    if ending == "blank":
+        text += "\n"
+    tmp = tempfile.mkdtemp(prefix="c17s_")
+    try:
+        p = os.path.join(tmp, "elast.dat")
+        with open(p, "w", encoding="utf8") as fp:
+            fp.write(text)
+        try:
+            d = ed.read_elast_data(p)
+            ok = d.vref == vref and d.nv == nv and d.cellmass == mass and len(d.volumes) == nv and [tuple(x) for x in d.lattice_parmeters] == lat and all(
+                d.volumes[i].volume == vols[i] and dict(d.volumes[i].static_elastic_modulus) == {c_(I, J): rows[i][k] for k, (I, J) in enumerate(cols)} for i in range(nv))
+            return {"reproduced": not ok, "input": {"rows": nv, "columns": len(cols), "ending": ending, "text": text[:300]}, "observed": "parse %s the tabulated data" % ("equals" if ok else "differs from")}
+        except Exception as e:  # noqa: BLE001
+            return {"reproduced": True, "input": {"rows": nv, "columns": len(cols), "ending": ending, "text": text[:300]}, "observed": "raises %r" % (e,)}
+    finally:
+        shutil.rmtree(tmp, ignore_errors=True)
 
 
 def static_tables(s, ed, rnd, tmp):
@@ -594,8 +799,12 @@ MANIFEST = {
             "nothing else; (2) for every line write_energy can emit from its f-string / %-format templates (any finite values, any natural "
             "counts) the reader's REGEX_INFO_START and REGEX_PVE match at position 0 and capture exactly the written field tokens, and "
             "str.split() yields exactly the written coordinates / weights. The (pattern, line) pairs are the ones the real reader performs "
-            "on a file the real writer produced (recorded run). Bounded: write_energy/read_energy round trip for random data sets (counts, P, V, E, "
+            "on a file the real writer produced (recorded run). (3) The line and field STRUCTURE of read_elast_data is decided on abstract tables for every layout of 1-12 rows x "
+            "1-21 component columns x three endings (lattice block, end of file, trailing blank line): the real reader runs on a stream of abstract lines whose split() yields "
+            "abstract fields; reference volume, cell mass, each row's volume, each component under the canonical key of its own column and each lattice row are the fields of "
+            "their own lines (contents abstract, so independent of values; row count bounded by 12). Bounded: write_energy/read_energy round trip for random data sets (counts, P, V, E, "
             "frequencies, q-coordinates, weights to the written precision), read_elast_data on rendered tables, and `cij fill` on nine systems.",
     "note": "A-RE (backtracking priority semantics, cross-checked against CPython every run), A-PRINTF, A-SPLIT; line structure / counts and "
-            "float formatting bounded: 40/60/9 (quick) and 1500/2000/108 (thorough) cases, never counted as discharged.",
+            "float formatting bounded: 40/60/9 (quick) and 1500/2000/108 (thorough) cases, never counted as discharged; rendered tables carry full 17-digit numbers in every "
+            "third row (exactness means float(token)).",
 }
